@@ -1,10 +1,11 @@
 (* C13 - JSON text is parsed to the value it denotes and printed text parses back.  Statements only.
    Model: JSON/Text.v (parser jbn_from_json, printer jbn_as_json), JSON/Utf8.v (utf8proc).  Reference definitions:
-   JSON/TextSpec.v.  Doubles are outside the model (iwstrtod / iwjson_ftoa are oracle parameters `ora` / `fo`):
-   `wf v` excludes JF64, every other kind of node is covered at full strength. *)
+   JSON/TextSpec.v, JSON/TextNumSpec.v.  The VALUES of doubles are outside the model (iwstrtod / iwjson_ftoa are oracle
+   parameters `ora` / `fo`): `wf v` excludes JF64, every other kind of node is covered at full strength.  Which bytes
+   a number occupies is inside the model (strtod_end, section 10). *)
 Require Import ZArith List Lia.
 Require Import IW.Lib.CInt IW.Gen.Facts IW.JSON.Val IW.JSON.Utf8 IW.JSON.Text IW.JSON.TextSpec
-               IW.JSON.Utf8_proofs IW.JSON.Text_proofs.
+               IW.JSON.Utf8_proofs IW.JSON.Text_proofs IW.JSON.TextNumSpec IW.JSON.TextNum_proofs.
 Import ListNotations. Local Open Scope Z_scope.
 
 (* (1) every valid string body - raw bytes, the eight short escapes, \uXXXX in either case, surrogate pairs -:
@@ -160,3 +161,57 @@ Theorem C13_esc_cp_table : forall b, 0 <= b < 128 ->
   write_json_string JBL_PRINT_CODEPOINTS [b] = Ok (nth (Z.to_nat b) jtext_esc_cp_tbl []).
 Proof. exact esc_cp_table_agrees. Qed.
 Print Assumptions C13_esc_cp_table.
+
+(* (10) numbers with a fraction or an exponent.  The VALUE of a double stays an oracle input (iwstrtod is not interpreted), but
+   which bytes belong to the number is decided by the model's scanner `strtod_end`, the loops of iwstrtod (src/utils/iwconv.c).
+   (a) for EVERY input: when the scanner converts something, the byte at the end position is not a digit - no digit
+       run is ever cut in the middle;
+   (b) every RFC 8259 number (any number of integer, fraction and exponent digits, either sign, leading zeros in the exponent)
+       followed by what may follow a value is consumed completely: the end position is the first byte after it;
+   (c) hence the parser, on a number with a fraction or an exponent, creates ONE double node - the value iwstrtod
+       returns - and continues right after the number (element counts and following tokens are those of the text).
+       _partial: unless iwstrtod reports ERANGE (value-dependent: pow() overflow/underflow; then the text is rejected),
+       and the value itself is not characterised. *)
+Theorem C13_number_scan_stops : forall str, (0 < strtod_end str)%nat -> is_dig (at0 str (strtod_end str)) = false.
+Proof. exact strtod_end_stops. Qed.
+Print Assumptions C13_number_scan_stops.
+
+Theorem C13_number_scan_maximal : forall t rest, number_tok t -> fol rest -> strtod_end (t ++ rest) = length t.
+Proof. exact strtod_end_number. Qed.
+Print Assumptions C13_number_scan_maximal.
+
+(* the exact decimal expansion of the double 0.1 (55 fraction digits) in front of ",2]" *)
+Example C13_number_scan_example :
+  number_tok [48; 46; 49; 48; 48; 48; 48; 48; 48; 48; 48; 48; 48; 48; 48; 48; 48; 48; 48; 53; 53; 53; 49; 49; 49; 53; 49; 50; 51; 49; 50; 53; 55; 56; 50; 55; 48; 50; 49; 49; 56; 49; 53; 56; 51; 52; 48; 52; 53; 52; 49; 48; 49; 53; 54; 50; 53] /\
+  fol [44; 50; 93] /\
+  strtod_end ([48; 46; 49; 48; 48; 48; 48; 48; 48; 48; 48; 48; 48; 48; 48; 48; 48; 48; 48; 53; 53; 53; 49; 49; 49; 53; 49; 50; 51; 49; 50; 53; 55; 56; 50; 55; 48; 50; 49; 49; 56; 49; 53; 56; 51; 52; 48; 52; 53; 52; 49; 48; 49; 53; 54; 50; 53] ++ [44; 50; 93]) = 57%nat.
+Proof.
+  split; [|split; [cbn; auto|vm_compute; reflexivity]].
+  exists [], [48], (46 :: [49; 48; 48; 48; 48; 48; 48; 48; 48; 48; 48; 48; 48; 48; 48; 48; 48; 53; 53; 53; 49; 49; 49; 53; 49; 50; 51; 49; 50; 53; 55; 56; 50; 55; 48; 50; 49; 49; 56; 49; 53; 56; 51; 52; 48; 52; 53; 52; 49; 48; 49; 53; 54; 50; 53]), [].
+  split; [reflexivity|]. split; [left; reflexivity|]. split; [left; reflexivity|]. split; [|left; reflexivity].
+  right. eexists. split; [reflexivity|]. split; [discriminate|].
+  repeat (apply Forall_cons; [unfold dchar; lia|]). apply Forall_nil.
+Qed.
+
+Theorem C13_parse_float_consumes_partial : forall ora t rest w lvl fuel,
+  float_tok t -> fol rest -> snd (ora (t ++ rest)) = false ->
+  Forall (fun c => is_vws c = true) w -> 0 <= lvl <= JBL_MAX_NESTING_LEVEL -> (1 <= fuel)%nat ->
+  parse_value ora fuel lvl (w ++ t ++ rest) = Ok (Some (JF64 (fst (fst (ora (t ++ rest))))), rest).
+Proof. exact parse_value_float. Qed.
+Print Assumptions C13_parse_float_consumes_partial.
+
+(* [-1.0000000000000000000000000000000000000001e+05,2] : two elements, the second is the integer 2 *)
+Example C13_parse_float_example :
+  float_tok [45; 49; 46; 48; 48; 48; 48; 48; 48; 48; 48; 48; 48; 48; 48; 48; 48; 48; 48; 48; 48; 48; 48; 48; 48; 48; 48; 48; 48; 48; 48; 48; 48; 48; 48; 48; 48; 48; 48; 48; 48; 48; 49; 101; 43; 48; 53] /\
+  forall bits, from_json (fun _ => (bits, 0%nat, false)) ([91] ++ [45; 49; 46; 48; 48; 48; 48; 48; 48; 48; 48; 48; 48; 48; 48; 48; 48; 48; 48; 48; 48; 48; 48; 48; 48; 48; 48; 48; 48; 48; 48; 48; 48; 48; 48; 48; 48; 48; 48; 48; 48; 48; 49; 101; 43; 48; 53] ++ [44; 50; 93]) = Ok (Some (JArr [JF64 bits; JI64 2])).
+Proof.
+  split; [|intro bits; vm_compute; reflexivity].
+  exists [45], [49], (46 :: [48; 48; 48; 48; 48; 48; 48; 48; 48; 48; 48; 48; 48; 48; 48; 48; 48; 48; 48; 48; 48; 48; 48; 48; 48; 48; 48; 48; 48; 48; 48; 48; 48; 48; 48; 48; 48; 48; 48; 49]), [101; 43; 48; 53].
+  split; [reflexivity|]. split; [|left; discriminate].
+  split; [right; reflexivity|]. split; [right; exists 49, []; split; [reflexivity|split; [lia|apply Forall_nil]]|].
+  split.
+  - right. eexists. split; [reflexivity|]. split; [discriminate|].
+    repeat (apply Forall_cons; [unfold dchar; lia|]). apply Forall_nil.
+  - right. exists 101, [43], [48; 53]. split; [reflexivity|]. split; [left; reflexivity|]. split; [right; left; reflexivity|].
+    split; [discriminate|]. repeat (apply Forall_cons; [unfold dchar; lia|]). apply Forall_nil.
+Qed.
